@@ -79,7 +79,7 @@ for prop in ("C06",):
 open_("D31b", "C12", "rows whose payload needs overflow pages break the tree within a handful of inserts (panic at storage/core/buffer.rs:570, 'Buffer overflow ... on a btreepage')", "O-res", "rows_with_overflow_chains", "findings/D31b-rows-with-overflow-chains-break-the-tree-within-a-few-inserts.json")
 open_("D17b", "C15", "ALTER TABLE ... DROP COLUMN of the last column can leave the table unreadable (panic at storage/tuple.rs:297)", "O-state", "alter_drop_column", "findings/D17b-alter-drop-last-column-leaves-table-unreadable.json")
 open_("X1b", "C15", "CREATE UNIQUE INDEX in autocommit while an older session is open: that session can no longer use the table ('Table not found N')", "O-res", "create_index_inside_session", "findings/X1b-create-index-while-older-session-open-hides-table-from-it.json")
-open_("X3", "C15", "a UNIQUE index over columns of different types listed out of table order panics (types/core.rs:333) on the first duplicate probe", "O-res", "mixed_type_index_out_of_table_order", "findings/X3-multi-column-index-out-of-table-order-panics-on-duplicate.json")
+fixed("X3", "C15", "b57c28d", "a UNIQUE index over columns of different types listed out of table order panicked (types/core.rs:333) on the first duplicate probe", "O-res", "findings/X3-multi-column-index-out-of-table-order-panics-on-duplicate.json")
 
 # ---- open findings: B+tree (C10 / C11) ----
 for prop in ("C10", "C11"):
